@@ -311,6 +311,9 @@ pub struct Recorder<'l, I: 'l> {
     pub seen: usize,
     /// positions of the vertices accepted, by id
     pub positions: Vec<(u32, Point)>,
+    /// everything else a vertex carries (bit patterns): stroke: position on path, normal, advancement, width,
+    /// side, source, interpolated attributes; fill: sources, interpolated attributes
+    pub data: Vec<Vec<u64>>,
 }
 
 impl<'l, I> Recorder<'l, I> {
@@ -321,6 +324,7 @@ impl<'l, I> Recorder<'l, I> {
             fail_at,
             seen: 0,
             positions: Vec::new(),
+            data: Vec::new(),
         }
     }
 }
@@ -359,6 +363,19 @@ where
             return Err(GeometryBuilderError::TooManyVertices);
         }
         let pos = v.position();
+        let mut v = v;
+        {
+            let mut d: Vec<u64> = Vec::new();
+            for s in v.sources() {
+                match s {
+                    lyon_tessellation::VertexSource::Endpoint { id } => d.extend([1, id.0 as u64]),
+                    lyon_tessellation::VertexSource::Edge { from, to, t } => d.extend([2, from.0 as u64, to.0 as u64, t.to_bits() as u64]),
+                }
+            }
+            d.push(u64::MAX);
+            d.extend(v.interpolated_attributes().iter().map(|a| a.to_bits() as u64));
+            self.data.push(d);
+        }
         let r = self.inner.add_fill_vertex(v);
         self.calls.push(GCall::Vertex(r.as_ref().ok().map(|i| i.0)));
         if let Ok(id) = &r {
@@ -380,6 +397,22 @@ where
             return Err(GeometryBuilderError::TooManyVertices);
         }
         let pos = v.position();
+        let mut v = v;
+        {
+            let mut d: Vec<u64> = vec![
+                v.position_on_path().x.to_bits() as u64, v.position_on_path().y.to_bits() as u64,
+                v.normal().x.to_bits() as u64, v.normal().y.to_bits() as u64,
+                v.advancement().to_bits() as u64, v.line_width().to_bits() as u64,
+                if v.side() == lyon_tessellation::Side::Positive { 1 } else { 0 },
+            ];
+            match v.source() {
+                lyon_tessellation::VertexSource::Endpoint { id } => d.extend([1, id.0 as u64]),
+                lyon_tessellation::VertexSource::Edge { from, to, t } => d.extend([2, from.0 as u64, to.0 as u64, t.to_bits() as u64]),
+            }
+            d.push(u64::MAX);
+            d.extend(v.interpolated_attributes().iter().map(|a| a.to_bits() as u64));
+            self.data.push(d);
+        }
         let r = self.inner.add_stroke_vertex(v);
         self.calls.push(GCall::Vertex(r.as_ref().ok().map(|i| i.0)));
         if let Ok(id) = &r {
